@@ -5,6 +5,8 @@ message framing, pinned constants. Helper lemmas are in Lemmas.lean / Common/Cod
 -/
 import BV.C08.Lemmas
 import BV.C08.Alloc
+import BV.C08.Domain
+import BV.C08.Gates
 import BV.Generated.C08
 namespace BV.C08
 open BV.Codec
@@ -44,6 +46,23 @@ theorem tx_size (e : TxEnc) (t : Tx) (h : (tx e).wf t) : (tx e).size t = ((tx e)
   (tx_lawful e).size_eq t h
 
 theorem block_laws (e : TxEnc) : Lawful (block e) := block_lawful e
+
+/-- the domain of both transaction encodings in plain terms (`Spec.TxDomain`): field ranges, count caps,
+one witness stack per input, the 4 MiB script pool, and — the restriction BIP144 forces — no witness
+data under the base encoding resp. at least one input under the witness encoding. -/
+theorem tx_domain (e : TxEnc) (t : Tx) : (tx e).wf t ↔ TxDomain e t := tx_wf_iff e t
+
+theorem block_domain (e : TxEnc) (b : Block) :
+    (block e).wf b ↔ HeaderOk b.1 ∧ b.2.length ≤ maxTxPerBlock ∧ ∀ t ∈ b.2, TxDomain e t := block_wf_iff e b
+
+/-- the domain is inhabited: a one-input one-output transaction with a witness item -/
+example : TxDomain .witness (2, [(List.replicate 32 7, 1, [0x51], 0xffffffff)], [(5000, [0x51])], [[[1, 2]]], 0) := by
+  refine ⟨by decide, by decide, ?_, by decide, ?_, rfl, ?_, by decide, by decide, by decide⟩
+  · intro i hi; simp at hi; subst hi; exact ⟨rfl, by decide, by decide, by decide⟩
+  · intro o ho; simp at ho; subst ho; exact ⟨by decide, by decide⟩
+  · intro w hw; simp at hw; subst hw
+    refine ⟨by decide, ?_⟩
+    intro x hx; simp at hx; subst hx; decide
 
 /-- The domain restriction of BIP144, stated: under the witness encoding a transaction in the domain
 has at least one input … -/
@@ -145,19 +164,45 @@ theorem cfcheckpt_laws : Lawful cfcheckpt := cfcheckpt_lawful
 theorem getcfilters_laws : Lawful getcfilters := getcfilters_lawful
 theorem getcfcheckpt_laws : Lawful getcfcheckpt := getcfcheckpt_lawful
 
-/-- version gates: below the gate nothing decodes (and nothing is in the domain) -/
-theorem pong_gate (pver : Nat) (h : pver ≤ BIP0031Version) (b : Bytes) :
-    ∃ e, (pong pver).dec b = .error e := by
-  have : ¬ pver > BIP0031Version := by omega
-  simp only [pong, this, if_false, never, BV.Codec.guard]
-  split
-  · exact ⟨_, rfl⟩
-  · exact ⟨_, rfl⟩
+/-- version gates: a message that does not exist below its gate decodes from nothing there
+(pong, reject, feefilter, filterload/filteradd/filterclear/merkleblock, mempool, sendheaders,
+sendaddrv2/wtxidrelay) -/
+theorem version_gates (pver : Nat) (b : Bytes) :
+    (pver ≤ BIP0031Version → ∃ e, (pong pver).dec b = .error e) ∧
+    (pver < RejectVersion → ∃ e, (reject pver).dec b = .error e) ∧
+    (pver < FeeFilterVersion → ∃ e, (feeFilter pver).dec b = .error e) ∧
+    (pver < BIP0037Version → (∃ e, (filterLoad pver).dec b = .error e) ∧ (∃ e, (filterAdd pver).dec b = .error e) ∧
+        (∃ e, (merkleBlock pver).dec b = .error e) ∧ (∃ e, (emptyFrom pver BIP0037Version).dec b = .error e)) ∧
+    (pver < BIP0035Version → ∃ e, (emptyFrom pver BIP0035Version).dec b = .error e) ∧
+    (pver < SendHeadersVersion → ∃ e, (emptyFrom pver SendHeadersVersion).dec b = .error e) ∧
+    (pver < AddrV2Version → ∃ e, (emptyFrom pver AddrV2Version).dec b = .error e) := message_gates pver b
 
 /-- ping carries a nonce exactly from BIP0031 on -/
 theorem ping_gate (pver : Nat) (n : Nat) :
     (ping pver).enc n = if pver > BIP0031Version then leBytes 8 n else [] := by
   unfold ping; split <;> rfl
+
+/-- the address timestamp exists exactly from `NetAddressTimeVersion` on (30 vs 26 bytes) -/
+theorem netAddr_gate (pver : Nat) (a : NetAddr) (h : (netAddr pver).wf a) :
+    ((netAddr pver).enc a).length = if pver ≥ NetAddressTimeVersion then 30 else 26 :=
+  netAddr_timestamp_gate pver a h
+
+/-- below `MultipleAddressVersion` an addr message holds at most one address (encoder and, since
+the repair F-C08-d, decoder) -/
+theorem addr_gate (pver : Nat) (hp : pver < MultipleAddressVersion) (l : List NetAddr)
+    (h : (addr pver).wf l) : l.length ≤ 1 := addr_count_gate pver hp l h
+
+/-- below `BIP0037Version` the version message has no relay flag (relay is on) -/
+theorem version_relay (pver : Nat) (hp : pver < BIP0037Version) (v : VersionVal)
+    (h : (version pver).wf v) : v.2.2.2.2.2.2.2.2 = true := version_relay_gate pver hp v h
+
+/-- messages in the domain fit their `MaxPayloadLength`, so `WriteMessage` never refuses them -/
+theorem payload_fits_inv (l : List InvVect) (h : invList.wf l) (pver : Nat) :
+    (invList.enc l).length ≤ maxPayload "inv" pver := inv_fits l h pver
+theorem payload_fits_headers (l : List BlockHeader) (h : headers.wf l) (pver : Nat) :
+    (headers.enc l).length ≤ maxPayload "headers" pver := headers_fits l h pver
+theorem payload_fits_getblocks (m : Nat × List Bytes × Bytes) (h : getBlocks.wf m) (pver : Nat) :
+    (getBlocks.enc m).length ≤ maxPayload "getblocks" pver := getBlocks_fits m h pver
 
 /-! ### message framing (24-byte header, checksum, limits) -/
 
@@ -379,6 +424,15 @@ theorem pin_bip144 : Generated.C08.TxFlagMarker = 0 ∧ Generated.C08.WitnessFla
 theorem pin_addrv2_sizes : Generated.C08.ipv4Size = 4 ∧ Generated.C08.ipv6Size = 16 ∧ Generated.C08.torv2Size = 10 ∧
     Generated.C08.torv3Size = 32 ∧ Generated.C08.i2pSize = 32 ∧ Generated.C08.cjdnsSize = 16 ∧
     Generated.C08.netIDipv4 = 1 ∧ Generated.C08.netIDcjdns = 6 := by decide
+theorem pin_sizeof : Generated.C08.sizeofTxIn + Generated.C08.sizeofPointer = eszTxIn ∧
+    Generated.C08.sizeofTxOut + Generated.C08.sizeofPointer = eszTxOut ∧
+    Generated.C08.sizeofSlice = eszWitnessItem ∧
+    Generated.C08.sizeofMsgTx + Generated.C08.sizeofPointer = eszTx ∧
+    Generated.C08.sizeofInvVect + Generated.C08.sizeofPointer = eszInvVect ∧
+    Generated.C08.sizeofBlockHeader + Generated.C08.sizeofPointer = eszHeader ∧
+    Generated.C08.sizeofHash + Generated.C08.sizeofPointer = eszHash ∧
+    Generated.C08.sizeofNetAddress + Generated.C08.sizeofPointer + 16 ≤ eszNetAddr ∧
+    Generated.C08.sizeofNetAddressV2 + Generated.C08.sizeofPointer + 40 ≤ eszNetAddrV2 := by decide
 theorem pin_commands : Generated.C08.commands = commands := by decide
 theorem pin_maxPayload_current :
     Generated.C08.maxPayloadCurrent = commands.map (fun c => (maxPayload c ProtocolVersion : Int)) := by decide
